@@ -19,6 +19,9 @@ func (t Translator) FromArrai(v rel.Value) (interface{}, error) {
 		}
 		return v.Float64(), nil
 	case rel.String:
+		if !v.Equal(rel.NewString([]rune(v.String()))) {
+			return nil, fmt.Errorf("cannot convert string %v with an offset or holes", v)
+		}
 		return v.String(), nil
 	case *rel.GenericTuple:
 		if !v.IsTrue() {
@@ -48,7 +51,7 @@ func (t Translator) FromArrai(v rel.Value) (interface{}, error) {
 			case rel.TrueSet:
 				return true, nil
 			default:
-				return b.(rel.GenericSet).IsTrue(), nil
+				return nil, errors.Errorf("FromArrai: value in (b: <value>) must be true or false, not %v", b)
 			}
 		}
 		return nil, fmt.Errorf("cannot convert tuple %s to an object", v)
@@ -90,7 +93,15 @@ func (t Translator) objFromArraiDict(v rel.Dict) (map[string]interface{}, error)
 		if err != nil {
 			return nil, err
 		}
-		maps[keydata.(string)] = valuedata
+		name, isString := keydata.(string)
+		if _, empty := key.(rel.EmptySet); empty {
+			// the empty string is the empty set
+			name, isString = "", true
+		}
+		if !isString {
+			return nil, fmt.Errorf("cannot convert dict key %v: keys must be strings", key)
+		}
+		maps[name] = valuedata
 	}
 	return maps, nil
 }
